@@ -322,7 +322,7 @@ def run_check(prop_id, tier, body, level='proof'):
         print(f'INFRA-ERROR {prop_id}: {e}')
         return 2
     except Exception:
-        traceback.print_exc()
+        print(traceback.format_exc())
         print(f'INFRA-ERROR {prop_id}: harness crashed')
         return 2
 
